@@ -58,10 +58,12 @@ def real_op_cases(tier, seed, f32=False):
              ("recip", [-1e-6, 1e-6, -1e5, 1e5, -0.5, 3.0, -7.0, 1e-3], {}),
              ("powf", [1e-120, 1e-30, 1e-3, 0.5, 2.0, 1e3, 1e10, 4.0], {"p": {"n": 3}}),
              ("powf", [1e-12, 1e-3, 0.25, 1.0, 9.0, 1e4, 1e8, 2.0], {"p": rsc(0.5, f32)}),
+             ("powf", [1e-9, 2.5e-9, 1e-3, 7.0, 1e4, 1e7, 1e10, 3e9], {"p": rsc(2.5, f32)}),
+             ("powf", [2.5e-9, 1e-6, 0.3, 5.0, 1e3, 1e6, 7e9, 1e10], {"p": rsc(1.5, f32)}),
              ("powf", [1e-6, 1e-2, 0.3, 1.0, 3.0, 50.0, 1e3, 7.0], {"p": rsc(-1.5, f32)})]
     if f32:
         # keep every intermediate inside the normal range of f32
-        tails = [(n_, [max(min(v, 3e4), -3e4) if abs(v) > 1e-9 or v == 0 else (1e-9 if v > 0 else -1e-9) for v in vs], par)
+        tails = [(n_, [max(min(v, 1e10 if n_ == 'powf' and 'hx' in par.get('p', {}) else 3e4), -3e4) if abs(v) > 1e-9 or v == 0 else (1e-9 if v > 0 else -1e-9) for v in vs], par)
                  for (n_, vs, par) in tails]
     for name, vals, par in tails:
         for d in ([8], [2, 4], [4, 2]):
@@ -74,6 +76,30 @@ def real_op_cases(tier, seed, f32=False):
                 steps = [RESET, rleaf(1, d, vs, trk=True, f32=f32), op(name, [1], 10, **par), op("scale", [10], 11, c=rsc(1e6, f32)),
                          {"op": "backward", "args": [11]}]
                 cases.append(steps)
+    # softmax is row-wise: rows at very different levels in one array (each row's own exponentials are ordinary numbers)
+    for levels in ([-70.0, 30.0], [-40.0, 40.0], [60.0, -60.0, 0.0], [-75.0, -20.0, 25.0, 70.0], [5.0, -80.0]):
+        for n in (2, 3):
+            d = [len(levels), n]
+            vals = [lv + rnd.uniform(-1.0, 1.0) for lv in levels for _ in range(n)]
+            # forward only at these levels: the library computes softmax as exp / sum(exp), whose DERIVATIVE squares
+            # the exponentials - beyond about +-40 that under- or overflows single precision (not judged)
+            cases.append([RESET, rleaf(1, d, vals, trk=False, f32=f32), op("softmax", [1], 10)])
+            mild = [v * 0.45 for v in vals]
+            cases.append([RESET, rleaf(1, d, mild, trk=True, f32=f32), op("softmax", [1], 10),
+                          {"op": "backward", "args": [10], "seed": rt(d, draw(rnd, len(vals), "any"), f32)}])
+            cases.append([RESET, rleaf(1, [1] + d, mild, trk=True, f32=f32), op("softmax", [1], 10), op("ln", [10], 11),
+                          {"op": "backward", "args": [11]}])
+    # very small parameters, gradients and learning rates: every step counts, however small
+    for (x0, g0, lr) in ((1e-9, 1e-3, 1e-5), (2.5e-6, 4e-5, 1e-3), (0.0, 1e-4, 1e-4), (-3e-8, -2e-2, 1e-6), (1.0, 1e-6, 1e-3), (1e-3, 5e-7, 0.5)):
+        for d in ([1], [3], [2, 2]):
+            n = prod(d)
+            xs = [x0 * (1 + 0.25 * k) for k in range(n)]
+            gs = [g0 * (1 - 0.125 * k) for k in range(n)]
+            cases.append([RESET, rleaf(1, d, xs, trk=True, f32=f32), rleaf(2, [2], [1.0, 2.0], trk=True, f32=f32),
+                          {"op": "setgrad", "args": [1], "g": rt(d, gs, f32)},
+                          {"op": "update", "args": [1, 2], "lr": rsc(lr, f32)},
+                          {"op": "setgrad", "args": [1], "g": rt(d, gs, f32)},
+                          {"op": "update", "args": [2, 1], "lr": rsc(lr, f32)}])
     pairs = [(a, b) for a in shapes(3, 3) for b in shapes(3, 3) if bdims(a, b)]
     for a, b in rnd.sample(pairs, 200 if tier == "thorough" else 40):
         od = bdims(a, b)
@@ -271,4 +297,35 @@ def real_tracking_cases(tier, seed, f32=False):
                 steps += [{"op": "drop", "args": [10]}]
             steps += [{"op": "into_vec", "args": [1]}, {"op": "into_vec", "args": [2]}]
             cases.append(steps)
+    return cases
+
+
+def real_self_operand_cases(tier, seed, f32=False):
+    """the same array at several positions in transcendental expressions: x / x, softmax on rank 3 and on rows with equal
+    entries, exp used by two consumers with passes from both, sigmoid of sigmoid, ln of a product"""
+    rnd = random.Random(seed)
+    cases = []
+    for d in ([3], [2, 3], [2, 2, 3]):
+        n = prod(d)
+        for rep in range(3 if tier == "thorough" else 1):
+            x = draw(rnd, n, "pos")
+            eq = [x[0]] * n if rep == 0 else x
+            progs = [
+                [op("div", [1, 1], 10)],
+                [op("exp", [1], 9), op("mul", [9, 9], 10)],
+                [op("exp", [1], 9), op("neg", [9], 10), op("scale", [9], 11, c=rsc(0.5, f32))],
+                [op("softmax", [1], 10)],
+                [op("sigmoid", [1], 9), op("sigmoid", [9], 10)],
+                [op("mul", [1, 1], 9), op("ln", [9], 10)],
+                [op("recip", [1], 9), op("mul", [9, 1], 10)],
+                [op("softmax", [1], 9), op("ln", [9], 10)],
+                [op("powf", [1], 9, p=rsc(0.5, f32)), op("mul", [9, 9], 10)],
+            ]
+            for k, ops in enumerate(progs):
+                vals = eq if k == 3 else x
+                steps = [RESET, rleaf(1, d, vals, trk=True, f32=f32)] + ops
+                steps.append({"op": "backward", "args": [10], "seed": rt(d, draw(rnd, n, "any"), f32)})
+                if k == 2:
+                    steps.append({"op": "backward", "args": [11]})
+                cases.append(steps)
     return cases
